@@ -159,6 +159,11 @@ def fixed_cases(tier):
     # a block with 253 transactions (3-byte tx count) spending 252 outputs created in one tx
     cases.append(dict(recipes=['big252', 'sweep252'], flush='F-', prefetch=100, limit=200))
     cases.append(dict(recipes=['big252', 'sweep252'], flush='--', prefetch=100, limit=200))
+    # blocks whose coinbase touches no script hash, followed by other transactions
+    for rs in itertools.product(['burn+old', 'burn+chain2', 'burn+cb', 'fan'], repeat=3):
+        for fl in (('---', 'F-H', '-FF') if tier == 'quick' else
+                   [''.join(f) for f in itertools.product('-HF', repeat=3)]):
+            cases.append(dict(recipes=list(rs), flush=fl, prefetch=100, limit=200))
     # flat files split into tiny physical files: every flush straddles file boundaries
     cases.append(dict(recipes=long_recipes[:130], flush_every=True, prefetch=10, limit=5,
                       small_files=True))
